@@ -460,6 +460,9 @@ func (w *World) Exec(s *Step) {
 		if err != nil {
 			return
 		}
+		if txn.IsInAggressiveLockingMode() && t.StmtFU != 0 {
+			fu = t.StmtFU // commits of others since the attempt began now give "locked with conflict" results
+		}
 		wait := s.WaitMs
 		if wait == 0 {
 			wait = kv.LockNoWait
@@ -512,12 +515,14 @@ func (w *World) Exec(s *Step) {
 		}
 		txn.StartAggressiveLocking()
 		t.AggrCur, t.AggrPrev = map[string]uint64{}, map[string]uint64{}
+		t.StmtFU, _ = w.forUpdateTS(c) // a statement takes its for-update ts once per attempt
 	case "aggr-retry":
 		if !txn.IsInAggressiveLockingMode() {
 			return
 		}
 		txn.RetryAggressiveLocking(ctx)
 		t.AggrPrev, t.AggrCur = t.AggrCur, map[string]uint64{}
+		t.StmtFU, _ = w.forUpdateTS(c)
 	case "aggr-done", "aggr-cancel":
 		if !txn.IsInAggressiveLockingMode() {
 			return
